@@ -648,6 +648,29 @@ func TestC08(t *testing.T) {
 				rt.Fatalf("C08 violated by %v after the same operator instance served %v: %s", c, other, d)
 			}
 		}
+		if c.op == "Concat" && c.valid && rapid.IntRange(0, 3).Draw(rt, "sameObjectTwice") == 0 {
+			// one tensor object concatenated with itself (the same name listed several times)
+			k2 := rapid.IntRange(2, 3).Draw(rt, "copies")
+			obj := cloneT(c.ins[0])
+			c2 := c
+			c2.ins, c2.nData = nil, k2
+			var shapes [][]int
+			var objs []tensor.Tensor
+			for i := 0; i < k2; i++ {
+				c2.ins = append(c2.ins, c.ins[0])
+				shapes = append(shapes, cloneInts(c.ins[0].Shape()))
+				objs = append(objs, obj)
+			}
+			axis := int(c.node.Attribute[0].I)
+			if axis < 0 {
+				axis += len(shapes[0])
+			}
+			c2.ref = refConcat(shapes, axis)
+			ev.Class("C08", "concat-of-one-object-with-itself")
+			if v := c08Judge(c2, runOp("Concat", c.node, objs)); v != "" {
+				rt.Fatalf("C08 violated by %v when input 0 is listed %d times (one tensor object): %s", c, k2, v)
+			}
+		}
 		if len(c.ins) >= 2 && rapid.IntRange(0, 5).Draw(rt, "sharedParams") == 0 {
 			if od, ok := otherDataLike(rt, c.ins[0]); ok {
 				ev.Class("C08", "instance-and-parameter-tensors-served-another-data-tensor")
